@@ -28,6 +28,7 @@ import (
 	"github.com/synnaxlabs/synnax/pkg/distribution/framer"
 	"github.com/synnaxlabs/synnax/pkg/distribution/mock"
 	"github.com/synnaxlabs/synnax/pkg/distribution/node"
+	xfs "github.com/synnaxlabs/x/io/fs"
 	"github.com/synnaxlabs/x/telem"
 )
 
@@ -65,7 +66,23 @@ type op struct {
 	Delta int64    `json:"delta"` // bump
 }
 
+// engine-level case: ONE cesium engine on a memory file system that is closed and reopened on the
+// same file system (the mock cluster cannot reopen a node's engine)
+type eop struct {
+	Op    string    `json:"op"` // create | delete | delete1 | rename | reopen
+	Chans []engChan `json:"chans"`
+	Keys  []uint32  `json:"keys"`
+	Names []string  `json:"names"`
+}
+type estep struct {
+	Err     string    `json:"err"`
+	ErrText string    `json:"err_text"`
+	Eng     []engChan `json:"eng"`
+}
+
 type tcase struct {
+	Kind     string `json:"kind"` // "" (cluster) | "engine"
+	EOps     []eop  `json:"eops"`
 	ID       int    `json:"id"`
 	Nodes    int    `json:"nodes"`
 	Validate bool   `json:"validate"`
@@ -130,6 +147,7 @@ type result struct {
 	Steps []stepOut `json:"steps"`
 	Panic *string   `json:"panic"`
 	Unsettled bool  `json:"unsettled"`
+	ESteps []estep  `json:"esteps"`
 }
 
 // ---- cluster handling
@@ -321,7 +339,7 @@ func classify(err error) string {
 		return "internal"
 	case strings.Contains(s, "calculated channels cannot specify"):
 		return "calc_index"
-	case strings.HasPrefix(s, "name: required"):
+	case strings.Contains(s, "name: required"):
 		return "name_required"
 	case strings.HasPrefix(s, "data_type:"), strings.HasPrefix(s, "index:"), strings.HasPrefix(s, "key:"):
 		return "ts_invalid"
@@ -427,7 +445,9 @@ func (cl *clusterT) run(o op) (st stepOut) {
 			st.Idx = append(st.Idx, idx)
 			lkey := uint32(0)
 			if s.KeyName != "" {
-				if c, ok := cl.byName(s.KeyName); ok {
+				// only the key of a live CALCULATED channel is re-submitted (a request carrying
+				// some other channel's key is outside what clients do and what the model assumes)
+				if c, ok := cl.byName(s.KeyName); ok && c.Expr != "" {
 					lkey = c.LocalKey
 				}
 			}
@@ -530,6 +550,68 @@ func (cl *clusterT) noteDeleted(k uint32) {
 
 var cur *clusterT
 
+func listEngine(db *cesium.DB) []engChan {
+	u, v := db.VerifChannelKeys()
+	out := []engChan{}
+	add := func(keys []cesium.ChannelKey, kind string) {
+		for _, k := range keys {
+			ch, err := db.RetrieveChannel(ctx, k)
+			if err != nil {
+				out = append(out, engChan{Key: uint32(k), Kind: kind + "!" + err.Error()})
+				continue
+			}
+			out = append(out, engChan{Key: uint32(ch.Key), Name: ch.Name, DT: string(ch.DataType),
+				IsIndex: ch.IsIndex, Index: uint32(ch.Index), Virtual: ch.Virtual, Kind: kind})
+		}
+	}
+	add(u, "unary")
+	add(v, "virtual")
+	sort.Slice(out, func(a, b int) bool { return out[a].Key < out[b].Key })
+	return out
+}
+
+func runEngine(c tcase) (res result) {
+	res.ID = c.ID
+	fs := xfs.NewMem()
+	db, err := cesium.Open(ctx, "", cesium.WithFS(fs))
+	if err != nil {
+		panic(err)
+	}
+	defer func() { _ = db.Close() }()
+	res.ESteps = []estep{}
+	for _, o := range c.EOps {
+		var err error
+		switch o.Op {
+		case "create":
+			chs := make([]cesium.Channel, 0, len(o.Chans))
+			for _, e := range o.Chans {
+				chs = append(chs, cesium.Channel{Key: e.Key, Name: e.Name, DataType: telem.DataType(e.DT),
+					IsIndex: e.IsIndex, Index: e.Index, Virtual: e.Virtual})
+			}
+			err = db.CreateChannel(ctx, chs...)
+		case "delete":
+			err = db.DeleteChannels(o.Keys)
+		case "delete1":
+			err = db.DeleteChannel(o.Keys[0])
+		case "rename":
+			err = db.RenameChannels(ctx, o.Keys, o.Names)
+		case "reopen":
+			if err = db.Close(); err == nil {
+				db, err = cesium.Open(ctx, "", cesium.WithFS(fs))
+			}
+			if err != nil {
+				panic("reopen: " + err.Error())
+			}
+		}
+		st := estep{Err: classify(err), Eng: listEngine(db)}
+		if err != nil {
+			st.ErrText = err.Error()
+		}
+		res.ESteps = append(res.ESteps, st)
+	}
+	return res
+}
+
 func runCase(c tcase) (res result) {
 	res.ID = c.ID
 	defer func() {
@@ -542,6 +624,9 @@ func runCase(c tcase) (res result) {
 			}
 		}
 	}()
+	if c.Kind == "engine" {
+		return runEngine(c)
+	}
 	// every case gets a fresh cluster: histories must start from a known state
 	if cur != nil {
 		_ = cur.c.Close()
